@@ -96,7 +96,8 @@ sgstrs(trans_t trans, SuperMatrix *L, SuperMatrix *U,
     Bstore = B->Store;
     ldb = Bstore->lda;
     nrhs = B->ncol;
-    if ( trans != NOTRANS && trans != TRANS ) *info = -1;
+    /* For a real matrix the conjugate transpose is the transpose. */
+    if ( trans != NOTRANS && trans != TRANS && trans != CONJ ) *info = -1;
     else if ( L->nrow != L->ncol || L->nrow < 0 ) *info = -3;
     else if ( U->nrow != U->ncol || U->nrow < 0 ) *info = -4;
     else if ( ldb < SUPERLU_MAX(0, L->nrow) ) *info = -6;
